@@ -43,7 +43,11 @@ def _build(c, dst):
     if c.get("schunk") and c["axis"] != "YX":
         ch[[d for d in xx.dims if d not in xx.odc.spatial_dims][0]] = c["schunk"]
     xx = xx.chunk(ch)
-    wkw = {"blocksize": list(c["blocks"]), "stats": False, "compression": c["comp"]}
+    wkw = {"blocksize": list(c["blocks"]), "stats": bool(c.get("stats", False)), "compression": c["comp"]}
+    if "pred" in c:
+        wkw["predictor"] = {"off": False, "on": True, "2": 2, "3": 3}[c["pred"]]
+    if "bigtiff" in c:
+        wkw["bigtiff"] = bool(c["bigtiff"])
     if c["spill"]:
         wkw["spill_sz"] = c["spill"]
         wkw["writes_per_chunk"] = c["wpc"]
